@@ -9,7 +9,7 @@ PROOF = S.pool_proof('C10', ['C10_never_posts_while_work_is_pending', 'C10_resiz
                              'C10_invariant_of_every_history', 'C10_structure'],
                      'a counter model: which worker takes which sentinel, the identity of the kept processes and wall-clock time are not '
                      'modelled; "terminates" is deadlock-freedom with a strictly decreasing measure, not a bound in seconds; locks held by '
-                     'dead processes (H5) and the race with terminate_broken (H8) are outside the model')
+                     'dead processes (H5) are outside the model')
 PROOF["gen"] = ["Resize"]
 PROOF["model_name"] = "coq/Model/Resize.v"
 PROOF["trusted_extra"] = ["the statement table of tr/units_resize.py (anything unrecognised is refused)",
